@@ -126,7 +126,8 @@ theorem loop_rows (m : Bool) : ∀ (rows : List XRow), (∀ r ∈ rows, RowOk r)
 
 theorem loop_end (m : Bool) (f : Nat) (bag : Bag) : loop m (f + 1) [47, 47] bag = .ok bag := by
   rw [loop]
-  simp [scanIW, scan, identFrom, classify, isInt64, isWS, identChar, afterRun, NL, CR, SP, TAB, upper, isDigit]
+  have hu : Utf8.upperLit [47, 47] = [47, 47] := by decide
+  simp [scanIW, scan, identFrom, classify, isInt64, isWS, identChar, afterRun, NL, CR, SP, TAB, hu, isDigit]
 
 /-- more fuel does not change a result that is not `hang` -/
 theorem loop_mono (m : Bool) : ∀ (f : Nat) (inp : Seq) (bag : Bag) (r : Outcome Bag),
